@@ -17,6 +17,7 @@ import (
 // ---- C07: suite expansion vs the iff of the statement ----
 
 type vfC07Case struct {
+	Subset []int `json:"subset"` // if set: only these config cases (indexes modulo the number of cases) are used
 	Suites []vfSuite `json:"suites"`
 	Cfg    vfCfg     `json:"cfg"`
 	Mode   int32     `json:"mode"`
@@ -79,6 +80,18 @@ func vfC07Check(c vfC07Case) error {
 	if err != nil {
 		return nil // config rejected: nothing to expand (C06 decides whether that is right)
 	}
+	if len(c.Subset) > 0 && len(cfgCases) > 0 {
+		// the property is about any set of config cases, also a single one
+		seen := map[int]bool{}
+		var sub []configCase
+		for _, i := range c.Subset {
+			if j := i % len(cfgCases); !seen[j] {
+				seen[j] = true
+				sub = append(sub, cfgCases[j])
+			}
+		}
+		cfgCases = sub
+	}
 	suites := map[string]*conformancev1.TestSuite{}
 	for i, s := range c.Suites {
 		suites[fmt.Sprintf("suite%d.yaml", i)] = vfSuiteProto(s)
@@ -99,11 +112,15 @@ func vfC07Check(c vfC07Case) error {
 		}
 	}
 	var libs []*testCaseLibrary
+	var fresh map[string]*conformancev1.TestSuite
 	for round := 0; round < 3; round++ {
-		// fresh suite messages every round (expansion fills in defaults in place)
-		fresh := map[string]*conformancev1.TestSuite{}
-		for k, v := range suites {
-			fresh[k] = proto.Clone(v).(*conformancev1.TestSuite)
+		// fresh suite messages for the first two rounds (expansion fills in defaults in place); the third round expands
+		// the very suite objects of the second once more: a parsed suite can be expanded again with the same result
+		if round < 2 {
+			fresh = map[string]*conformancev1.TestSuite{}
+			for k, v := range suites {
+				fresh[k] = proto.Clone(v).(*conformancev1.TestSuite)
+			}
 		}
 		lib, err := newTestCaseLibrary(fresh, cfgCases, mode)
 		if err != nil {
@@ -299,6 +316,11 @@ func TestVerifC07Expansion(t *testing.T) {
 				c.Cfg = vfCfg{Versions: []int32{1}, Protocols: []int32{1, 3}, TLS: vfGenTri(t, "cfgtls"), Get: vfGenTri(t, "cfgget"), Limit: vfGenTri(t, "cfglimit")}
 			default:
 				c.Cfg = vfGenCfg(t)
+			}
+			if rapid.IntRange(0, 3).Draw(t, "subset") == 0 {
+				for i, n := 0, rapid.IntRange(1, 3).Draw(t, "nsubset"); i < n; i++ {
+					c.Subset = append(c.Subset, rapid.IntRange(0, 5000).Draw(t, "subsetIdx"))
+				}
 			}
 			return c
 		},
